@@ -191,8 +191,63 @@ func (v *Verifier) structural(cfg PropConfig, sc StructuralCheck) []StructResult
 		sort.Strings(bad)
 		return []StructResult{{Name: name, Kind: "refine", Text: fmt.Sprintf("every implementer of %s.%s in the module is verified against the interface contract %s", a.Iface, a.Method, a.Contract),
 			Detail: fmt.Sprintf("%d implementers; %s", n, strings.Join(uniq(bad), "; ")), OK: len(bad) == 0 && n > 0}}
+	case "forbidden_calls":
+		// no function of the module (outside the excluded packages) calls one of these functions / starts a goroutine
+		var a struct {
+			Prefixes    []string `json:"prefixes"`
+			ExcludePkgs []string `json:"exclude_pkgs"`
+			Goroutines  bool     `json:"goroutines"`
+			Allowed     []string `json:"allowed"`
+		}
+		json.Unmarshal(sc.Args, &a)
+		var bad []string
+		n := 0
+		for _, fn := range v.moduleFunctions(false) {
+			p := pkgOf(fn)
+			skip := p == nil
+			for _, ex := range a.ExcludePkgs {
+				if p != nil && strings.Contains(p.Path(), ex) {
+					skip = true
+				}
+			}
+			if skip || matchAny(shortKey(fn), a.Allowed) {
+				continue
+			}
+			n++
+			for _, b := range fn.Blocks {
+				for _, in := range b.Instrs {
+					if _, isGo := in.(*ssa.Go); isGo && a.Goroutines {
+						bad = append(bad, shortKey(fn)+" starts a goroutine")
+					}
+					var ops []*ssa.Value
+					for _, op := range in.Operands(ops) {
+						if op == nil || *op == nil {
+							continue
+						}
+						f, ok := (*op).(*ssa.Function)
+						if !ok {
+							continue
+						}
+						name := f.String()
+						if o := f.Origin(); o != nil {
+							name = o.String()
+						}
+						for _, pre := range a.Prefixes {
+							if strings.HasPrefix(name, pre) {
+								bad = append(bad, shortKey(fn)+" uses "+name)
+							}
+						}
+					}
+				}
+			}
+		}
+		sort.Strings(bad)
+		return []StructResult{{Name: name, Kind: "frame", Text: "no function in scope uses " + strings.Join(a.Prefixes, ", ") + map[bool]string{true: " or starts a goroutine", false: ""}[a.Goroutines],
+			Detail: fmt.Sprintf("%d functions scanned; %s", n, strings.Join(uniq(bad), "; ")), OK: len(bad) == 0 && n > 0}}
 	case "typestate":
 		return v.typestate(cfg, sc)
+	case "maporder":
+		return v.mapOrder(cfg, sc)
 	case "callers_subset":
 		var a struct {
 			Callee  string   `json:"callee"`
@@ -216,6 +271,15 @@ func (v *Verifier) structural(cfg PropConfig, sc StructuralCheck) []StructResult
 			}
 			if v.callsFunction(fn, callee) {
 				k := shortKey(fn)
+				if k == "" && fn.Origin() != nil {
+					k = shortKey(fn.Origin()) // instantiation of a generic function
+				}
+				if k == "" && fn.Synthetic != "" {
+					continue // wrapper (bound method, promoted method): its own callers are found through it
+				}
+				if i := strings.Index(k, "["); i > 0 && strings.HasSuffix(k, "]") {
+					k = k[:i]
+				}
 				seen = append(seen, k)
 				if !matchAny(k, a.Allowed) {
 					bad = append(bad, k)
